@@ -333,6 +333,26 @@ func getOp(keyPath []string, isSearchStage bool) (interface{}, bool) {
 	return nil, false
 }
 
+// Arguments typed FieldName that hold an expression rather than a plain field name.
+var expressionArguments = []string{"$sortByCount", "groupBy", "newRoot"}
+
+// redactExpressionArgument is used for FieldName-typed arguments when field names are kept.
+// A plain name or "$field" reference is returned as it is; an expression document or array
+// (e.g. newRoot: {$mergeObjects: [{a: "literal"}, "$doc"]}) can embed literals and is walked.
+func redactExpressionArgument(key string, v interface{}, keyPath []string, inSearchStage bool) interface{} {
+	if !slices.Contains(expressionArguments, key) {
+		return v
+	}
+	switch vTyped := v.(type) {
+	case *orderedmap.OrderedMap[string, any]:
+		return redactPipelineStage(vTyped, false, keyPath, inSearchStage)
+	case []any:
+		return redactArrayValues(vTyped, false, inSearchStage, isRedactableFieldPatternInArray(vTyped), keyPath)
+	default:
+		return v
+	}
+}
+
 func redactPipelineStage(stage interface{}, redactFieldNames bool, keyPath []string, inSearchStage bool) interface{} {
 	switch s := stage.(type) {
 	case *orderedmap.OrderedMap[string, any]:
@@ -377,7 +397,7 @@ func redactPipelineStage(stage interface{}, redactFieldNames bool, keyPath []str
 							newMap.Set(redactedKey, redactScalarValue([]string{k}, v, inSearchStage, false))
 						}
 					} else {
-						newMap.Set(redactedKey, v)
+						newMap.Set(redactedKey, redactExpressionArgument(k, v, newKeyPath, inSearchStage))
 					}
 					continue
 				case Namespace:
@@ -461,7 +481,7 @@ func redactPipelineStage(stage interface{}, redactFieldNames bool, keyPath []str
 											newSubMap.Set(subK, redactScalarValue([]string{k}, subV, inSearchStage, false))
 										}
 									} else {
-										newSubMap.Set(subK, subV)
+										newSubMap.Set(subK, redactExpressionArgument(subK, subV, append(newKeyPath, subK), inSearchStage))
 									}
 									continue
 								case Namespace:
